@@ -635,6 +635,21 @@ def main(argv=None):
     ok, msg = gen_tables()
     if not ok:
         failures.append(("table:gen_tables", msg[-800:]))
+    else:
+        # a table the translator could not read breaks exactly the properties whose development mentions it
+        try:
+            missing = json.load(open(os.path.join(COQ, "Generated.missing.json")))
+        except Exception:
+            missing = {}
+        if missing:
+            text = ""
+            for f in set(cone(P.PROPS) + cone(P.EXTRACT)):
+                if os.path.exists(os.path.join(COQ, f)) and f != "Generated.v":
+                    text += strip_comments(open(os.path.join(COQ, f)).read())
+            for ident, why in missing.items():
+                pat = ident.replace("*", r"\w*")
+                if re.search(r"\b" + pat + r"\b", text):
+                    failures.append(("table:" + ident, "tools/gen_tables.py could not read this table from the source: " + why))
     if a.no_proofs:
         proof = {"ok": True, "obligations": len(P.THEOREMS), "discharged": 0, "errors": ["skipped (--no-proofs)"]}
     else:
